@@ -11,13 +11,14 @@ NOTE = ("Trusted: z3; the proxy model of Python float/int/math semantics (DESIGN
         "overflow, underflow outside the claim). Bounds: tree families, arities, parameter sets and history lengths as listed in the evidence file.")
 CLAIMED = {
     "C01": ("6/C01", "For every tree of the bounded families the evaluator's result equals the real-arithmetic denotation for ALL points of the domain "
-            "(solver verdict per path, not sampling); trees are enumerated (bounded), points/constants/bases are symbolic."),
+            "(solver verdict per path, not sampling); trees are enumerated (bounded), points/constants/bases are symbolic. Dyadic exactness: the code's "
+            "float-operation trace equals the reference trace, or a QF_FP query (cvc5) finds small dyadic inputs on which they round differently."),
     "C02": ("6/C02", "For every tree of the bounded families: DomainError <=> point outside the strict domain, for ALL points, including exactly on "
             "every boundary and with offending sub-expressions masked by zero factors / base one / folds."),
     "C03": ("6/C03", "Forward-mode result equals the textbook derivative of the denotation for ALL domain points; node lemmas with children of "
             "arbitrary value and slope give the chain-rule induction step; bounded composition families on top."),
-    "C04": ("6/C04", "Reverse-mode components for every variable at once equal the textbook partials for ALL domain points, including DAG sharing "
-            "and repeated variables."),
+    "C04": ("6/C04", "Reverse-mode components for every variable at once equal the textbook partials for ALL domain points, including DAG sharing, "
+            "repeated variables and node lemmas under an arbitrary incoming multiplier (the induction step of the reverse sweep)."),
     "C05": ("6/C05", "Both symbolic differentiation routes including the simplifier: the returned expression, evaluated symbolically, is defined on the "
             "original's domain and equals the textbook derivative for ALL points; second order and 'no new variable' likewise. Known finding D3 is "
             "attributed counterfactually and the affected trees are re-verified with that one rule instance disabled."),
@@ -28,7 +29,8 @@ CLAIMED = {
     "C08": ("6/C08", "Every rewrite step, the whole pass, the give-up clause and re-simplification: each form is evaluated symbolically and z3 decides "
             "'defined wherever the input is, with the same value' for ALL points, per rule pattern and parameter combination. Known finding D3."),
     "C09": ("6/C09", "Operation histories (length <= 4) over pools sharing sub-expression objects, with two symbolic points so that cache contents and "
-            "half-finished failing calls are symbolic: the last operation equals the same operation on a fresh pool for ALL points. Known finding D3."),
+            "half-finished failing calls are symbolic: the last operation equals the same operation on a fresh pool for ALL points; plus an inductive step "
+            "with ARBITRARY content in every memo field of every node (covers evaluation/derivative histories of any length). Known finding D3."),
     "C10": ("6/C10", "After every history of the bounded alphabet each operand still equals, prints, hashes and (for ALL points) evaluates like its fresh twin; "
             "list helpers against their specification for an arbitrary integer index; Point against later dict mutation."),
     "C11": ("6/C11", "Shapes enumerated (bounded), constants/parameters symbolic (each rule's value tests are solver-checked forks): along every path the step-by-step "
